@@ -135,6 +135,9 @@ MUTANTS = [
 ]
 
 
+_BASE = {}  # failing obligations on the unchanged tree, per carrier
+
+
 def run_mutant(tmp, relpath, suffix, old, new):
     """like vf.selftest.run_e1_mutant, but 'failed' means: obligations fail that do not fail on the unchanged tree"""
     from vf import pyvc
@@ -148,7 +151,9 @@ def run_mutant(tmp, relpath, suffix, old, new):
     cons = [v for k, v in pyvc.REGISTRY.items() if k.endswith(suffix)]
     if not cons:
         return "stale", f"no contract registered for {suffix}"
-    base = ids(pyvc.verify(cons[0]))
+    if suffix not in _BASE:
+        _BASE[suffix] = ids(pyvc.verify(cons[0]))
+    base = _BASE[suffix]
     # callee contracts live in other source files: give the scratch tree unchanged copies of every file under contract
     import shutil
     for tgt in list(pyvc.REGISTRY):
